@@ -38,6 +38,18 @@ Theorem C11_from_io_is_slice : forall (t : ty) (input scratch : list byte),
   end.
 Proof. exact from_io_is_slice. Qed.
 
+(* every way a writer accepts data in pieces: a schedule decides, call by call, how many bytes
+   `write` takes (at least one) and when it is interrupted; write_all (std's loop, modelled in
+   IoChunks.v) runs over it.  Whatever the schedule, the writer ends up holding exactly the plain
+   encoding *)
+Theorem C11_any_write_chunking_is_encode : forall (v : value) (sched : list wr_event),
+  wgentle sched = true -> ser_err v = None -> to_io_c v sched false = Ok (enc v).
+Proof. exact to_io_chunked_is_encode. Qed.
+(* and with Ok(0) or a failure at any call, or a failing flush: a value or an error, never a panic *)
+Theorem C11_any_write_schedule_total : forall (v : value) (sched : list wr_event) (flush_fails : bool),
+  benign (to_io_c v sched flush_fails).
+Proof. exact to_io_chunked_total. Qed.
+
 (* every way a reader delivers its data in pieces: a schedule decides, call by call, how many
    bytes `read` hands over (at least one, never more than asked) and when it is interrupted;
    read_exact (std's loop, modelled in IoChunks.v) runs over it.  Whatever the schedule,
@@ -94,3 +106,5 @@ Print Assumptions C11_from_io_total.
 Print Assumptions C11_scratch_slots.
 Print Assumptions C11_any_chunking_is_slice.
 Print Assumptions C11_any_schedule_total.
+Print Assumptions C11_any_write_chunking_is_encode.
+Print Assumptions C11_any_write_schedule_total.
